@@ -704,7 +704,14 @@ func GenDoc(r *Rng, s *GSchema, nfaults int) (string, []string) {
 				if r.Chance(1, 2) {
 					a, b = b, a
 				}
-				add := "  box: " + f.Name + " {\n" + sub(a, "p") + "  }\n  box: " + f.Name + " {\n" + sub(b, "q") + "  }\n"
+				sa, sb := sub(a, "p"), sub(b, "q")
+				if r.Chance(1, 2) {
+					// two conflicting response names, one of them selected twice on
+					// one side: several sub-reasons, two of which render identically
+					sa += "    y: " + b + "\n"
+					sb += "    y: " + a + "\n    x: " + b + "\n"
+				}
+				add := "  box: " + f.Name + " {\n" + sa + "  }\n  box: " + f.Name + " {\n" + sb + "  }\n"
 				ops[0] = strings.TrimSuffix(ops[0], "}\n") + add + "}\n"
 				done = true
 				break
